@@ -47,8 +47,8 @@ import (
 type proxy struct {
 	mu      sync.Mutex
 	l       net.Listener
-	addr    string // listen address (fixed port after the first Listen)
-	target  string
+	addr    string       // listen address (fixed port after the first Listen)
+	target  atomic.Value // string
 	conns   map[net.Conn]bool
 	stalled atomic.Bool
 	accepts atomic.Int32
@@ -56,7 +56,8 @@ type proxy struct {
 }
 
 func newProxy(target string) (*proxy, error) {
-	p := &proxy{target: target, conns: map[net.Conn]bool{}}
+	p := &proxy{conns: map[net.Conn]bool{}}
+	p.target.Store(target)
 	l, err := net.Listen("tcp", "127.0.0.1:0")
 	if err != nil {
 		return nil, err
@@ -82,7 +83,7 @@ func (p *proxy) acceptLoop(l net.Listener) {
 }
 
 func (p *proxy) serve(c net.Conn) {
-	s, err := net.DialTimeout("tcp", p.target, 2*time.Second)
+	s, err := net.DialTimeout("tcp", p.target.Load().(string), 2*time.Second)
 	if err != nil {
 		c.Close()
 		return
@@ -198,20 +199,22 @@ func errClass(err error) string {
 	}
 }
 
-func startServer(port int) (*server.Server, error) {
-	s := server.New(
-		server.EndPoint("127.0.0.1", port),
-		server.EnableSecurity("None", ua.MessageSecurityModeNone),
-		server.EnableAuthMode(ua.UserTokenTypeAnonymous),
-	)
+// startServer starts a fresh in-process server on a fresh port.
+func startServer() (*server.Server, string, error) {
 	var err error
-	for i := 0; i < 50; i++ {
+	for i := 0; i < 20; i++ {
+		port := freePort()
+		s := server.New(
+			server.EndPoint("127.0.0.1", port),
+			server.EnableSecurity("None", ua.MessageSecurityModeNone),
+			server.EnableAuthMode(ua.UserTokenTypeAnonymous),
+		)
 		if err = s.Start(context.Background()); err == nil {
-			return s, nil
+			return s, fmt.Sprintf("127.0.0.1:%d", port), nil
 		}
-		time.Sleep(20 * time.Millisecond)
+		time.Sleep(10 * time.Millisecond)
 	}
-	return nil, err
+	return nil, "", err
 }
 
 func freePort() int {
@@ -262,17 +265,16 @@ func runScenario(sc string) (events []string, extra string) {
 		auto = steps[0] == "auto=1"
 		steps = steps[1:]
 	}
-	port := freePort()
-	srv, err := startServer(port)
+	srv, target, err := startServer()
 	if err != nil {
 		return nil, "infra: server: " + err.Error()
 	}
 	defer func() {
 		if srv != nil {
-			srv.Close()
+			go srv.Close() // Close waits up to 10 s for its channels: do not wait for it
 		}
 	}()
-	px, err := newProxy(fmt.Sprintf("127.0.0.1:%d", port))
+	px, err := newProxy(target)
 	if err != nil {
 		return nil, "infra: proxy: " + err.Error()
 	}
@@ -363,6 +365,14 @@ func runScenario(sc string) (events []string, extra string) {
 		case st == "cut":
 			tr.add("f.cut")
 			px.cut()
+		case st == "down":
+			tr.add("f.down")
+			px.down()
+		case st == "up":
+			if err := px.up(); err != nil {
+				return tr.snapshot(), "infra: proxy up: " + err.Error()
+			}
+			tr.add("f.up")
 		case strings.HasPrefix(st, "down"):
 			tr.add("f.down")
 			px.down()
@@ -385,17 +395,22 @@ func runScenario(sc string) (events []string, extra string) {
 			px.stalled.Store(false)
 			tr.add("f.up")
 		case st == "restart", strings.HasPrefix(st, "sdown"):
+			// a new server instance (all sessions and subscriptions lost) replaces the old one
 			tr.add("f.restart")
-			srv.Close()
+			old := srv
 			srv = nil
+			px.target.Store("127.0.0.1:1") // nothing listens there: the proxy closes what it accepts
 			px.cut()
+			go old.Close()
 			if strings.HasPrefix(st, "sdown") {
 				time.Sleep(ms(st[5:]))
 			}
-			srv, err = startServer(port)
+			var t string
+			srv, t, err = startServer()
 			if err != nil {
 				return tr.snapshot(), "infra: server restart: " + err.Error()
 			}
+			px.target.Store(t)
 			tr.add("f.up")
 		case st == "read":
 			_, err := c.Node(ua.NewNumericNodeID(0, 2258)).Value(ctx)
@@ -403,24 +418,36 @@ func runScenario(sc string) (events []string, extra string) {
 		case st == "close":
 			doClose()
 		case strings.HasPrefix(st, "closeAt:"):
+			// arm the trap: when the monitor reaches the top of that action it is held,
+			// Close is called and returns, then the monitor is released
 			closeAt.Store(st[len("closeAt:"):])
-			// wait until the monitor is held there (or give up: the action was not reached)
+		case st == "trap":
 			deadline := time.Now().Add(5 * time.Second)
 			for !held.Load() && time.Now().Before(deadline) {
 				time.Sleep(2 * time.Millisecond)
 			}
 			if !held.Load() {
 				closeAt.Store("")
-				tr.add("f.closeAt.notreached")
+				tr.add("f.trap.notreached")
 				continue
 			}
+			tr.add("f.trap")
 			doClose()
 			close(holdCh)
 		}
 	}
+	if px.up() != nil {
+		return tr.snapshot(), "infra: proxy up"
+	}
+	if held.Load() && !closed { // a trap that sprang without a `trap` step
+		tr.add("f.trap")
+		doClose()
+		close(holdCh)
+	}
 	res := ""
 	if !closed {
 		// heal: everything is up; the client must come back (auto-reconnect) and work
+		closeAt.Store("")
 		if auto {
 			ok := waitConnected(15 * time.Second)
 			tr.add("f.healed." + map[bool]string{true: "connected", false: "notconnected:" + c.State().String()}[ok])
@@ -474,19 +501,254 @@ func child() {
 	}
 }
 
+// ------------------------------------------------------------------ parent
+
+var docTable = map[string][]string{ // connstate.go, stuttering allowed
+	"Closed":       {"Connecting", "Closed"},
+	"Connecting":   {"Connecting", "Connected", "Closed"},
+	"Connected":    {"Disconnected", "Closed"},
+	"Disconnected": {"Reconnecting", "Connected", "Closed"},
+	"Reconnecting": {"Reconnecting", "Connected", "Closed"},
+}
+
+func documented(from, to string) bool {
+	for _, x := range docTable[from] {
+		if x == to {
+			return true
+		}
+	}
+	return false
+}
+
+func scenarios(o *h.Opts, rnd *h.Rand) []string {
+	fixed := []string{
+		"auto=1 w30",
+		"auto=1 w30 cut w50",
+		"auto=1 w20 cut w5 cut w40",
+		"auto=1 w30 down150 w30",
+		"auto=1 w30 rst120 w30",
+		"auto=1 w30 stall150 w30",
+		"auto=1 w30 restart w30",
+		"auto=1 w30 sdown120 w20 cut w30",
+		"auto=1 w30 down w80 close w150",
+		"auto=1 w30 cut close w100",
+		"auto=1 w30 restart close w100",
+		"auto=0 w30 cut w100",
+		"auto=0 w30 down100 w50",
+		"auto=0 w30 close w50",
+		"auto=1 w30 closeAt:createSecureChannel cut trap w100",
+		"auto=1 w30 closeAt:restoreSession cut trap w100",
+		"auto=1 w30 closeAt:restoreSubscriptions cut trap w100",
+		"auto=1 w30 closeAt:recreateSession restart trap w100",
+		"auto=1 w30 closeAt:transferSubscriptions restart trap w100",
+	}
+	faults := []string{"cut", "down%d", "rst%d", "stall%d", "restart", "sdown%d", "cut", "down%d"}
+	for i := 0; i < o.N(10, 120); i++ {
+		sc := "auto=1 w" + fmt.Sprint(10+rnd.Intn(40))
+		n := 1 + rnd.Intn(4)
+		for j := 0; j < n; j++ {
+			f := faults[rnd.Intn(len(faults))]
+			if strings.Contains(f, "%d") {
+				f = fmt.Sprintf(f, 20+rnd.Intn(160))
+			}
+			sc += " " + f + " w" + fmt.Sprint(rnd.Intn(120))
+		}
+		switch rnd.Intn(6) {
+		case 0:
+			sc += " close w100"
+		case 1:
+			acts := []string{"createSecureChannel", "restoreSession", "recreateSession", "restoreSubscriptions", "transferSubscriptions"}
+			sc = strings.Replace(sc, " ", " closeAt:"+acts[rnd.Intn(len(acts))]+" ", 2)
+			sc = strings.Replace(sc, "closeAt:", "XcloseAt:", 1) // keep only the second insertion (after the first wait)
+			parts := strings.Fields(sc)
+			var out []string
+			for _, p := range parts {
+				if !strings.HasPrefix(p, "XcloseAt:") {
+					out = append(out, p)
+				}
+			}
+			sc = strings.Join(out, " ")
+		}
+		fixed = append(fixed, sc)
+	}
+	return fixed
+}
+
+func token(ev string) string { return strings.Replace(ev, " ", ":", 1) }
+
 func main() {
 	if os.Getenv("VERIF_C25_CHILD") != "" {
 		child()
 		return
 	}
 	o := h.ParseOpts()
-	if os.Getenv("VERIF_C25_EXPLORE") != "" {
-		ev, extra := runScenario(os.Getenv("VERIF_C25_EXPLORE"))
+	if sc := os.Getenv("VERIF_C25_EXPLORE"); sc != "" {
+		ev, extra := runScenario(sc)
 		fmt.Println(strings.Join(ev, "\n"))
 		fmt.Println("extra:", extra)
 		return
 	}
-	_ = sscript.RunBatch
 	r := h.NewResult("C25", o)
+	d, err := h.StartDriver(o.Driver)
+	if err != nil {
+		r.InfraError = err.Error()
+		r.Write(o.Out)
+		return
+	}
+	defer d.Close()
+	rnd := h.NewRand(o.Seed)
+	r.Rule = "case = fault scenario (auto-reconnect flag; sequence of waits, connection cuts, refused / reset connections, stalls, server restarts with session loss, server outages; optional Close at a wall-clock point or forced at the head of a monitor action); the real client behind a fault-injecting TCP proxy against the real in-process server; the recorded trace (user calls, state callbacks, TCP connect attempts, monitor verifPoints) is replayed through the Lean LTS ConnLts (subset construction over hidden environment answers); 19 fixed scenarios covering every fault kind, Close during every reconnect action, auto-reconnect off, plus seeded random scenarios; distinct by scenario text"
+	// the Go copy of the documented automaton must be the Lean one
+	for from := range docTable {
+		for _, to := range []string{"Closed", "Connected", "Connecting", "Disconnected", "Reconnecting"} {
+			want := "0"
+			if documented(from, to) {
+				want = "1"
+			}
+			r.Compare(d, "doc "+from+" "+to, want)
+		}
+	}
+
+	var cases []string
+	if o.Replay != "" {
+		cases = []string{o.Replay}
+	} else {
+		seen := map[string]bool{}
+		for _, l := range append(o.CorpusLines(), scenarios(o, rnd)...) {
+			if !seen[l] {
+				seen[l] = true
+				cases = append(cases, l)
+			}
+		}
+	}
+	outs := make([]sscript.Answer, len(cases))
+	const workers = 6
+	var wg sync.WaitGroup
+	for w := 0; w < workers; w++ {
+		var idx []int
+		for i := w; i < len(cases); i += workers {
+			idx = append(idx, i)
+		}
+		if len(idx) == 0 {
+			continue
+		}
+		wg.Add(1)
+		go func(idx []int) {
+			defer wg.Done()
+			sscript.RunBatch([]string{"VERIF_C25_CHILD=1"}, cases, idx, outs, o.Seed, 40*time.Second)
+		}(idx)
+	}
+	wg.Wait()
+
+	for i, sc := range cases {
+		out := outs[i]
+		if out.Infra != "" || out.Line == "infra-scenario" {
+			r.InfraError = "scenario " + sc + ": " + out.Infra + " " + out.Extra
+			r.Write(o.Out)
+			return
+		}
+		if out.Died != "" {
+			r.Count(sc, true)
+			r.Fail(sc, "", "the client process died: "+out.Died)
+			continue
+		}
+		r.Count(sc, true)
+		events := strings.Split(out.Line, ";")
+		hooks, auto := "1", "1"
+		if strings.HasPrefix(sc, "auto=0") {
+			auto = "0"
+		}
+		var lts []string   // events of the LTS alphabet
+		var marks []string // everything, for the oracle
+		for _, e := range events {
+			if e == "f.nohooks" {
+				hooks = "0"
+			}
+			marks = append(marks, e)
+			if !strings.HasPrefix(e, "f.") {
+				lts = append(lts, token(e))
+			}
+		}
+		if hooks == "0" {
+			r.Hit("no-verifpoints")
+		}
+		for _, e := range events {
+			switch {
+			case strings.HasPrefix(e, "f.") && !strings.HasPrefix(e, "f.goroutines") && !strings.HasPrefix(e, "f.healed") && !strings.HasPrefix(e, "f.final"):
+				r.Hit("fault:" + strings.TrimPrefix(e, "f."))
+			case strings.HasPrefix(e, "m.action"):
+				r.Hit("action:" + strings.TrimPrefix(e, "m.action "))
+			case strings.HasPrefix(e, "m.error"):
+				r.Hit("error:" + strings.TrimPrefix(e, "m.error "))
+			case strings.HasPrefix(e, "st "):
+				r.Hit("state:" + strings.TrimPrefix(e, "st "))
+			}
+		}
+		r.Sample(sc + " -> " + strings.Join(lts, " "))
+
+		// ---- trace validation: the trace must be a path of the Lean LTS
+		ans := "?"
+		if d != nil {
+			ans = d.Ask("trace " + auto + " " + hooks + " " + strings.Join(lts, " "))
+			if !strings.HasPrefix(ans, "ok") {
+				r.Disagree("trace "+auto+" "+hooks+" "+strings.Join(lts, " "), ans, "the implementation produced this trace (scenario: "+sc+")")
+			} else {
+				r.TracesValidated++
+			}
+		}
+
+		// ---- the property's own oracle, on the trace alone
+		last, closeEnded, userClosed := "Closed", false, false
+		lastSt := ""
+		for _, e := range marks {
+			switch {
+			case e == "u.close":
+				userClosed = true
+			case e == "u.close.end":
+				closeEnded = true
+			case e == "dial" && closeEnded:
+				r.Fail(sc, "", "TCP connect attempt after Close returned")
+			case strings.HasPrefix(e, "st "):
+				x := strings.TrimPrefix(e, "st ")
+				lastSt = x
+				if !documented(last, x) {
+					sig := ""
+					// narrow signature: a report out of Closed by the monitor goroutine after the user's Close reported Closed
+					if userClosed && last == "Closed" && (x == "Reconnecting" || x == "Connected" || x == "Disconnected") {
+						sig = "C25.state-after-close"
+					}
+					r.Fail(sc, sig, "undocumented transition "+last+" -> "+x)
+					if sig != "" {
+						r.Confirm(sig, sc+" -> … "+last+" -> "+x)
+					}
+				} else if closeEnded && x != "Closed" {
+					sig := ""
+					if x == "Reconnecting" || x == "Connected" || x == "Disconnected" {
+						sig = "C25.state-after-close"
+					}
+					r.Fail(sc, sig, "state "+x+" reported after Close returned")
+				}
+				last = x
+			case strings.HasPrefix(e, "f.healed.notconnected"):
+				r.Fail(sc, "", "auto-reconnect on, server reachable again, but the client did not return to Connected within 15 s: "+e)
+			case e == "f.finalread.err":
+				r.Fail(sc, "", "client reports Connected after the faults but a Read fails: "+out.Extra)
+			case strings.HasPrefix(e, "f.goroutines "):
+				if f := strings.Fields(e); len(f) >= 2 && f[1] != "0" {
+					r.Fail(sc, "", "client goroutines still running 350 ms after Close: "+e)
+				}
+			}
+		}
+		if userClosed && lastSt != "Closed" {
+			r.Fail(sc, "", "last reported state after Close is "+lastSt)
+		}
+	}
+	for _, b := range []string{"action:createSecureChannel", "action:restoreSession", "action:recreateSession", "action:transferSubscriptions",
+		"action:restoreSubscriptions", "fault:cut", "fault:down", "fault:rst", "fault:stall", "fault:restart", "fault:trap",
+		"state:Reconnecting", "state:Disconnected"} {
+		if r.Distribution[b] == 0 && o.Replay == "" && r.Distribution["no-verifpoints"] == 0 {
+			r.Unreached = append(r.Unreached, b)
+		}
+	}
 	r.Write(o.Out)
 }
